@@ -407,5 +407,7 @@ func corpus() [][]hx.Group {
 			evSub(6, 2, 102, []filt{{"a/+", 0}}), evIn(mq.Fixed(mq.SUBACK, 0, []byte{0, 6, 0})), evUnsub(7, 3, []string{"a/+"}), evIn(mq.Ack(mq.UNSUBACK, 7)), evIn(mq.Publish("a/b", []byte("2"), 0, false, false, 0))},
 		// finding F16: acknowledgement processed before the request is registered
 		{ok, hx.GB([]int64{6, 1, 30, 7, 1}, []byte("w")), evPub(1, false, 31, 8, "o", []byte("y")), evIn(mq.Ack(mq.PUBACK, 31)), evIn(mq.Ack(mq.PUBACK, 30))},
+		// finding F22: a request numbered by the library gets the identifier the application chose for one still in flight
+		{ok, evPub(1, false, 1, 8, "o", []byte("x")), evPub(1, false, 0, 9, "o", []byte("y")), evIn(mq.Ack(mq.PUBACK, 1)), evIn(mq.Ack(mq.PUBACK, 1))},
 	}
 }
